@@ -317,6 +317,16 @@ pub mod c07 {
             tree.insert(s as i64..s as i64 + w as i64, 1000 + k);
             arr.insert(s as i64..s as i64 + w as i64, 1000 + k);
         }
+        // trees that start as Default::default() instead of new()
+        let mut dtree: IntervalTree<i64, usize> = Default::default();
+        let mut darr: ArrayBackedIntervalTree<i64, usize> = Default::default();
+        for (d, &(s, w)) in c.inserts.iter().enumerate() {
+            dtree.insert(s as i64..s as i64 + w as i64, d);
+            darr.insert(s as i64..s as i64 + w as i64, d);
+        }
+        darr.index();
+        let copies = [copies[0].clone(), copies[1].clone(), copies[2].clone(), ("Default::default() + the same inserts", dtree)];
+        let acopies = [acopies[0].clone(), acopies[1].clone(), acopies[2].clone(), ("Default::default() + the same inserts + index()", darr)];
         let cap = model.len() + 2;
         for &(qs, qw) in &c.queries {
             let (qs, qe) = (qs as i64, qs as i64 + qw as i64);
